@@ -3,14 +3,18 @@ package main
 import (
 	"errors"
 	"fmt"
+	"runtime"
 	"sort"
 	"strconv"
 	"strings"
 	"sync"
+	"sync/atomic"
+	"time"
 
 	"github.com/nspcc-dev/neo-go/pkg/crypto/keys"
 	putsvc "github.com/nspcc-dev/neofs-node/pkg/services/object/put"
 	"github.com/nspcc-dev/neofs-node/pkg/util/verifbridge"
+	"github.com/nspcc-dev/neofs-node/pkg/util/verifhook"
 	apistatus "github.com/nspcc-dev/neofs-sdk-go/client/status"
 	neofsecdsa "github.com/nspcc-dev/neofs-sdk-go/crypto/ecdsa"
 	"github.com/nspcc-dev/neofs-sdk-go/netmap"
@@ -30,6 +34,10 @@ import (
 //	part   "-" or ruleIdx,partIdx (the object is an already encoded EC part)
 //	init   1 = initial placement policy present with lim (replica limits), max (MaxReplicas), pl (PreferLocal)
 //	fail   nodes that answer with an error; sched: model-side schedule seed (the implementation runs real goroutines)
+//
+// op line:  put ecrace <the fields of save> trials=N — the same case under FORCED interleavings of the EC part
+// routines (ecRendezvous: hook points put.ec.applyRule / put.ec.beforeTryNode), N times; one observation: the verdict
+// of every interleaving (the model runs the lock-step schedule), or "interleaving-dependent …" if the trials differ.
 func init() {
 	engines["put"] = seqRunner{gen: putGen, exec: putExec}.engine()
 }
@@ -130,6 +138,7 @@ type putLog struct {
 	ecAcks   []ecAck
 	postN    int
 	twice    bool
+	ecTwice  bool
 	seenMain map[int]bool
 }
 
@@ -138,11 +147,14 @@ func putExec(c *runCtx, ops []string) {
 	for _, line := range ops {
 		o := parseOp(line)
 		c.count(o.name)
-		if o.name != "save" {
+		switch o.name {
+		case "save":
+			putSave(c, line, parsePutCase(o))
+		case "ecrace":
+			putECRace(c, line, parsePutCase(o), o.int("trials"))
+		default:
 			c.emit(line, "=> bad-op")
-			continue
 		}
-		putSave(c, line, parsePutCase(o))
 	}
 }
 
@@ -160,11 +172,22 @@ func ecAttrInt(obj *object.Object, key string) int {
 }
 
 func putSave(c *runCtx, line string, p putCase) {
-	nl := len(p.rep) + len(p.ec)
-	if len(p.lists) != nl {
+	if len(p.lists) != len(p.rep)+len(p.ec) {
 		c.emit(line, "=> bad-op")
 		return
 	}
+	verdict, lg, obs := putOnce(p, line, nil)
+	c.count("verdict:" + verdict)
+	c.emit(line, obs)
+	putOracle(c, p, lg, verdict)
+	if len(lg.asked)+len(lg.ecAsked) > 1 && len(p.fail) > 0 {
+		c.nontrivial(line)
+	}
+}
+
+// putOnce runs the real saveObject once for the case and returns the verdict, the recorded sends and the
+// canonical observation. sendHook (optional) runs at the start of every scripted node's answer.
+func putOnce(p putCase, line string, sendHook func(ok bool)) (string, *putLog, string) {
 	vc := &putsvc.VerifPutCase{}
 	for _, r := range p.rep {
 		vc.Rep = append(vc.Rep, uint(r))
@@ -233,6 +256,9 @@ func putSave(c *runCtx, line string, p putCase) {
 	vc.Send = func(local bool, nodeKey []byte, o *object.Object) error {
 		n := putNodeNum(nodeKey)
 		ok := !failing[n]
+		if sendHook != nil {
+			sendHook(ok)
+		}
 		lg.mu.Lock()
 		defer lg.mu.Unlock()
 		if local != (n == p.local) {
@@ -240,6 +266,11 @@ func putSave(c *runCtx, line string, p putCase) {
 		}
 		r, pi := ecAttrInt(o, "__NEOFS__EC_RULE_IDX"), ecAttrInt(o, "__NEOFS__EC_PART_IDX")
 		if len(p.part) != 2 && r >= 0 && pi >= 0 {
+			for _, a := range lg.ecAsked {
+				if a.rule == r && a.node == n {
+					lg.ecTwice = true // two parts of one rule reserved the same node
+				}
+			}
 			lg.ecAsked = append(lg.ecAsked, ecAck{r, pi, n})
 			if ok {
 				lg.ecAcks = append(lg.ecAcks, ecAck{r, pi, n})
@@ -281,7 +312,6 @@ func putSave(c *runCtx, line string, p putCase) {
 			verdict = "err"
 		}
 	}()
-	c.count("verdict:" + verdict)
 	sort.Ints(lg.asked)
 	sort.Ints(lg.acks)
 
@@ -306,11 +336,7 @@ func putSave(c *runCtx, line string, p putCase) {
 			obs += " ec=" + joinInts(ecDone)
 		}
 	}
-	c.emit(line, obs)
-	putOracle(c, p, lg, verdict)
-	if len(lg.asked)+len(lg.ecAsked) > 1 && len(p.fail) > 0 {
-		c.nontrivial(line)
-	}
+	return verdict, lg, obs
 }
 
 func distinctIn(list []int, acks []int) int {
@@ -334,6 +360,7 @@ func putOracle(c *runCtx, p putCase, lg *putLog, verdict string) {
 	detail := fmt.Sprintf("verdict=%s asked=%v acks=%v ecAcks=%v", verdict, lg.asked, lg.acks, lg.ecAcks)
 	c.oracle("no-panic", verdict != "panic", detail)
 	c.oracle("node-asked-once-per-object", !lg.twice, detail)
+	c.oracle("ec-node-reserved-by-one-part-of-a-rule", !lg.ecTwice, fmt.Sprintf("ecAsked=%v %s", lg.ecAsked, detail))
 	if verdict != "ok" {
 		return
 	}
@@ -594,5 +621,167 @@ func putGen(c *runCtx, run func([]string)) {
 		p.fail = randFail()
 		add(p)
 	}
+	// 4. forced interleavings of the EC part routines: several parts find their own node column refusing at the
+	// same moment and go for the same reserve nodes (with and without enough good nodes for every part)
+	for i := 0; i < c.n(80, 600); i++ {
+		p := putCase{local: c.rng.IntN(U + 1), signer: true, sched: c.rng.IntN(1000)}
+		if c.rng.IntN(4) == 0 {
+			p.lists = append(p.lists, randList(1+c.rng.IntN(4)))
+			p.rep = append(p.rep, 1)
+		}
+		e := ecRules[c.rng.IntN(len(ecRules))]
+		tot := e/100 + e%100
+		l := randList(min(tot+1+c.rng.IntN(3), U))
+		p.ec = append(p.ec, e)
+		p.lists = append(p.lists, l)
+		// two or more of the parts' first nodes refuse; the reserve nodes mostly accept
+		first := c.rng.Perm(tot)
+		for _, k := range first[:min(tot, 2+c.rng.IntN(2))] {
+			p.fail = append(p.fail, l[k])
+		}
+		for _, n := range l[tot:] {
+			if c.rng.IntN(5) == 0 {
+				p.fail = append(p.fail, n)
+			}
+		}
+		sort.Ints(p.fail)
+		ops = append(ops, strings.Replace(p.line(), "put save ", "put ecrace ", 1)+fmt.Sprintf(" trials=%d", c.n(40, 80)))
+	}
 	run(ops)
+}
+
+// ---- forced interleavings of the EC part routines (op ecrace) ----
+
+// ecRendezvous lines the part routines of ONE applyECRule call up at the moments the reservation of a node
+// (ecProgress.canTryNode) can be contended: (1) the first answers of the nodes arrive together (a refusing
+// node answers only when every part has sent its first request), (2) the first routine that is about to
+// reserve node #i (point put.ec.beforeTryNode) waits a moment for a second routine going for the same node;
+// both are then released together. Everything is bounded by short timeouts, so no schedule can block.
+type ecRendezvous struct {
+	mu    sync.Mutex
+	parts int
+	sent  atomic.Int32
+	state map[int]int // node index: 0 nobody yet, 1 a routine is waiting, 2 passed
+	flag  map[int]*atomic.Int64
+	met   int // rendezvous that took place (two routines released together)
+}
+
+var rvBase = time.Now()
+
+func rvNanos() int64 { return int64(time.Since(rvBase)) }
+
+// spinUntil busy-waits for cond (checking the deadline now and then); false = timed out
+func spinUntil(cond func() bool, d time.Duration) bool {
+	deadline := time.Now().Add(d)
+	for i := 0; !cond(); i++ {
+		if i%64 == 63 {
+			if time.Now().After(deadline) {
+				return false
+			}
+			runtime.Gosched()
+		}
+	}
+	return true
+}
+
+func (r *ecRendezvous) pointN(name string, n int) {
+	switch name {
+	case "put.ec.applyRule":
+		r.mu.Lock()
+		r.parts = n
+		r.sent.Store(0)
+		r.state = map[int]int{}
+		r.flag = map[int]*atomic.Int64{}
+		r.mu.Unlock()
+	case "put.ec.beforeTryNode":
+		r.mu.Lock()
+		if r.state == nil { // a ready EC part (no shared progress): nothing to line up
+			r.mu.Unlock()
+			return
+		}
+		var goAt int64
+		switch r.state[n] {
+		case 0: // the first routine going for node #n: wait a moment for a second one
+			f := new(atomic.Int64)
+			r.state[n], r.flag[n] = 1, f
+			r.mu.Unlock()
+			if !spinUntil(func() bool { return f.Load() != 0 }, 300*time.Microsecond) {
+				r.mu.Lock()
+				if r.state[n] == 1 {
+					r.state[n] = 2
+				}
+				r.mu.Unlock()
+			}
+			goAt = f.Load()
+		case 1: // the second one: both leave at the same instant
+			r.state[n] = 2
+			r.met++
+			f := r.flag[n]
+			r.mu.Unlock()
+			goAt = rvNanos() + 3000
+			f.Store(goAt)
+		default:
+			r.mu.Unlock()
+		}
+		for goAt != 0 && rvNanos() < goAt {
+		}
+	}
+}
+
+// sendHook: refusing nodes answer together, once every part routine has sent a request
+func (r *ecRendezvous) sendHook(ok bool) {
+	r.mu.Lock()
+	parts := int32(r.parts)
+	r.mu.Unlock()
+	if parts == 0 {
+		return
+	}
+	r.sent.Add(1)
+	if !ok {
+		spinUntil(func() bool { return r.sent.Load() >= parts }, time.Millisecond)
+	}
+}
+
+// putECRace runs the case `trials` times with the part routines lined up by ecRendezvous. Every trial must give
+// the same observation (the model gives the verdict of every interleaving) and meet the property's oracle.
+func putECRace(c *runCtx, line string, p putCase, trials int) {
+	if len(p.lists) != len(p.rep)+len(p.ec) || trials < 1 || trials > 1000 {
+		c.emit(line, "=> bad-op")
+		return
+	}
+	type trial struct {
+		verdict string
+		lg      *putLog
+		obs     string
+	}
+	var ts []trial
+	distinct := map[string]bool{}
+	met := 0
+	for i := 0; i < trials; i++ {
+		rv := &ecRendezvous{}
+		verifhook.SetPointN(rv.pointN)
+		v, lg, obs := putOnce(p, line, rv.sendHook)
+		verifhook.SetPointN(nil)
+		met += rv.met
+		ts = append(ts, trial{v, lg, obs})
+		distinct[obs] = true
+	}
+	c.hist["ecrace-rendezvous"] += met
+	var all []string
+	for o := range distinct {
+		all = append(all, o)
+	}
+	sort.Strings(all)
+	obs := all[0]
+	if len(all) > 1 {
+		obs = "=> interleaving-dependent " + strings.ReplaceAll(strings.Join(all, " | "), "=> ", "")
+	}
+	c.count("verdict:" + ts[0].verdict)
+	c.emit(line, obs)
+	for _, t := range ts {
+		putOracle(c, p, t.lg, t.verdict)
+	}
+	if met > 0 {
+		c.nontrivial(line)
+	}
 }
